@@ -15,6 +15,7 @@ package vsched
 
 import (
 	"bytes"
+	"strings"
 	"fmt"
 	"reflect"
 	"runtime"
@@ -106,6 +107,7 @@ type Exec struct {
 	Log      []string // harness observations (only touched by the running goroutine)
 	Blocked  []string // description of parked goroutines at deadlock
 	Panics   int
+	Stacks   []string // full stacks of panics (not deterministic: goroutine numbers, addresses)
 	// fault injection hook: called at every point before alternatives are computed.
 	userData any
 }
@@ -113,6 +115,7 @@ type Exec struct {
 type chanInfo struct {
 	closed bool
 	id     int
+	ref    any
 }
 
 var current atomic.Pointer[Exec]
@@ -176,6 +179,7 @@ type Result struct {
 	Blocked  []string
 	NG       int
 	Panics   int
+	Stacks   []string
 }
 
 // Run executes body as controlled goroutine 0 under the schedule given by
@@ -191,7 +195,7 @@ func Run(prefix []int, maxPoints int, body func()) *Result {
 	g0.wake <- struct{}{}
 	<-e.finished
 	current.Store(nil)
-	r := &Result{Points: e.Points, Deadlock: e.Deadlock, Horizon: e.Horizon, Diverged: e.Diverged, Log: e.Log, Blocked: e.Blocked, NG: len(e.gs), Panics: e.Panics}
+	r := &Result{Points: e.Points, Deadlock: e.Deadlock, Horizon: e.Horizon, Diverged: e.Diverged, Log: e.Log, Blocked: e.Blocked, NG: len(e.gs), Panics: e.Panics, Stacks: e.Stacks}
 	for _, p := range e.Points {
 		r.Choices = append(r.Choices, p.Chosen)
 	}
@@ -236,7 +240,8 @@ func (e *Exec) exit(g *G) {
 	if r != nil {
 		buf := make([]byte, 8192)
 		buf = buf[:runtime.Stack(buf, false)]
-		e.Log = append(e.Log, fmt.Sprintf("PANIC in g%d: %v\n%s", g.id, r, buf))
+		e.Log = append(e.Log, fmt.Sprintf("PANIC in g%d: %v @ %s", g.id, r, panicSite(string(buf))))
+		e.Stacks = append(e.Stacks, string(buf))
 		e.Panics++
 	}
 	e.byGoid.Delete(g.goid)
@@ -272,6 +277,36 @@ func (e *Exec) exit(g *G) {
 	}
 }
 
+// panicSite extracts the frames of the panicking code (file:line, innermost
+// first, at most 3) from a stack dump, skipping the runtime and the scheduler.
+func panicSite(st string) string {
+	var out []string
+	lines := strings.Split(st, "\n")
+	seenPanic := false
+	for _, l := range lines {
+		l = strings.TrimSpace(l)
+		if strings.HasPrefix(l, "panic(") {
+			seenPanic = true
+			continue
+		}
+		if !seenPanic || !strings.HasPrefix(l, "/") {
+			continue
+		}
+		f := strings.Fields(l)[0]
+		if strings.Contains(f, "/runtime/") || strings.Contains(f, "zzverif/vsched/") {
+			continue
+		}
+		if i := strings.LastIndex(f, "/pkg/"); i >= 0 {
+			f = f[i+5:]
+		}
+		out = append(out, f)
+		if len(out) == 3 {
+			break
+		}
+	}
+	return strings.Join(out, " < ")
+}
+
 // Go starts f as a new controlled goroutine (or a plain goroutine outside a run).
 func Go(f func()) {
 	e, _ := me()
@@ -292,10 +327,13 @@ type alt struct {
 	pcase   int // partner's case index
 }
 
-func (e *Exec) chanInfoOf(key uintptr) *chanInfo {
+// chanInfoOf returns the record of a channel. The record keeps a reference to
+// the channel so that its address (the key) cannot be reused by another
+// channel during the execution.
+func (e *Exec) chanInfoOf(key uintptr, ch any) *chanInfo {
 	ci := e.chans[key]
 	if ci == nil {
-		ci = &chanInfo{id: len(e.chans)}
+		ci = &chanInfo{id: len(e.chans), ref: ch}
 		e.chans[key] = ci
 	}
 	return ci
@@ -335,7 +373,7 @@ func (e *Exec) caseAlts(g *G, i int, c selCase) []alt {
 	if isExternal(c.key) {
 		return []alt{{g: g, caseIdx: i}}
 	}
-	ci := e.chanInfoOf(c.key)
+	ci := e.chanInfoOf(c.key, c.ch)
 	capN := c.ch.Cap()
 	if c.send {
 		if ci.closed {
@@ -639,7 +677,7 @@ func Send[T any](ch chan<- T, v T) {
 		return
 	}
 	e.mu.Lock()
-	closed := e.chanInfoOf(o.cases[0].key).closed
+	closed := e.chanInfoOf(o.cases[0].key, o.cases[0].ch).closed
 	e.mu.Unlock()
 	if closed {
 		panic("send on closed channel")
@@ -679,7 +717,7 @@ func finishRecv[T any](e *Exec, o *op, i int, ch <-chan T) (T, bool) {
 	default:
 	}
 	e.mu.Lock()
-	closed := e.chanInfoOf(o.cases[i].key).closed
+	closed := e.chanInfoOf(o.cases[i].key, o.cases[i].ch).closed
 	e.mu.Unlock()
 	if closed {
 		return zero, false
@@ -699,7 +737,7 @@ func Close[T any](ch chan<- T) {
 	if e != nil {
 		rv := reflect.ValueOf(ch)
 		e.mu.Lock()
-		e.chanInfoOf(chanKey(rv)).closed = true
+		e.chanInfoOf(chanKey(rv), rv).closed = true
 		e.mu.Unlock()
 	}
 	close(ch)
@@ -757,7 +795,7 @@ func Select(hasDefault bool, cases ...Case) *Sel {
 			c.ch.Send(c.val)
 		} else if c.send && !o.completed && c.pred == nil {
 			e.mu.Lock()
-			closed := e.chanInfoOf(c.key).closed
+			closed := e.chanInfoOf(c.key, c.ch).closed
 			e.mu.Unlock()
 			if closed {
 				panic("send on closed channel")
